@@ -5,6 +5,7 @@ import (
 	"go/ast"
 	"go/token"
 	"go/types"
+	"os"
 	"sort"
 	"strings"
 
@@ -1249,6 +1250,10 @@ func (bc *bodyCtx) freshLocal(sel *ast.SelectorExpr) bool { return bc.freshRoot(
 // freshRoot reports whether the expression is rooted at a local variable that this
 // function allocated itself (x := &T{...}): nothing else can reach the object yet.
 func (bc *bodyCtx) freshRoot(e ast.Expr) bool {
+	if bc.fn.Lit != nil {
+		// a closure that captured the variable may run at any later time, concurrently
+		return false
+	}
 	var root ast.Expr = e
 	for {
 		switch x := ast.Unparen(root).(type) {
@@ -1544,6 +1549,9 @@ var asyncCallees = map[string]bool{
 // litArg decides under which locks a literal passed as an argument runs.
 func (bc *bodyCtx) litArg(call *ast.CallExpr, callees []*FuncNode, idx int, lit *ast.FuncLit, st *lockState) {
 	la := bc.la
+	if os.Getenv("VERIF_DEBUG") == "2" {
+		fmt.Printf("DEBUG litArg in %s callees=%d report=%v\n", bc.fn.Name, len(callees), la.report)
+	}
 	if len(callees) == 0 {
 		// callee outside the repository (lo.Filter, slices.SortFunc, sync.Once.Do ...):
 		// synchronous unless known to defer the call
